@@ -1078,6 +1078,8 @@ def run(ctx):
                 "word as flattened parameter, path variable, body field; flattened and request=, sync/asyncio gRPC and REST); "
                 "a types module named like a wrapper module the service code imports (operation, operation_async, pagers, extended_operation) x "
                 "{only LRO metadata there, everything there}: plain call, pager, LRO completed, sync/asyncio/REST; "
+                "proto-plus dependency packages (`proto-plus-deps=`) whose module needs an alias {own module, other dependency (proto-plus / _pb2), reserved "
+                "word, flattened parameter, dependency type as request}: dependency and API libraries generated into one site directory, imported, called; "
                 "every REST request is read back whole (path variables + query + body under the input descriptor); quick samples words, thorough enumerates all; "
                 "distinct by (word, position)")
     t2(ctx)
@@ -1178,7 +1180,8 @@ CLAIM = dict(
     design="7.12",
     note="Module-alias collisions between two proto modules: T3 (three shapes) and T3 of C01/C02 profiles, no theorem; between a proto module and a "
          "wrapper module of the service code (`Service.names` over `ref_types`): theorems + T2 (`c12.svcnames`) + T3 (extended LRO itself is not "
-         "generated: `extended_operation.proto` only as a file name); names bound by the templates (retries, logging, re, ...) are findings/C01.json; alias of a keyword-named file's module "
+         "generated: `extended_operation.proto` only as a file name); names bound by the templates (retries, logging, re, ...) are findings/C01.json; the import of an aliased module binds the name its references use (`Address.python_import` vs `Address.__str__`, all four "
+         "branches incl. proto-plus dependencies): theorem + T2 (`c12.import`) + T3; alias of a keyword-named file's module "
          "against a flattened parameter of the same word: theorem + T2 (`c12.alias`) + T3. A module `class_` meeting the transport property of an "
          "RPC `Class` stays excluded (DESIGN §16). Dotted http path variables with a "
          "reserved segment and reserved non-terminal flattened segments are wrong at HEAD (counterexample theorems; findings).",
